@@ -1,5 +1,6 @@
 import U3.Base.Proto
 import U3.Model.Wire
+import U3.Model.Url
 -- driver: wire
 /-! Line-protocol driver for `U3.Wire` (C10, C11).
 
@@ -8,6 +9,7 @@ req  <host> <port> <dport> <bs> <netloc|E:Exc> <idna|E:Exc> <meth> <target> <hea
 pool …same…                     (target re-encoded by `_encode_target` first)
      -> ok <wire bytes>  |  err <Exc> <bytes written before the failure>
 enc <target>                    -> ok <str> | err LocationParseError
+encx <target>                   -> same, followed by ` url=agree|differ` (vs `U3.Url.encodeTarget`)
 mt <tail>                       -> ok <str>
 hist <pool|manager> <cfg×6> <meth> <target> <headers> <body> <chunked> <outcomes>
      -> result=<ok|Exc> n=<k> <wire0> <wire1> …
@@ -104,6 +106,17 @@ def run : List String → Option String
     match encodeTarget (← str? t) with
     | .ok s => pure ("ok " ++ showStr s)
     | .error e => pure ("err " ++ excName e)
+  | ["encx", t] => do
+    -- `_encode_target` by this model, and whether the C14 model (`U3.Url.encodeTarget`) agrees
+    let t ← str? t
+    let agree := match encodeTarget t, U3.Url.encodeTarget t with
+      | .ok a, .ok b => a == b
+      | .error _, .error _ => true
+      | _, _ => false
+    let tag := if agree then " url=agree" else " url=differ"
+    match encodeTarget t with
+    | .ok s => pure ("ok " ++ showStr s ++ tag)
+    | .error e => pure ("err " ++ excName e ++ tag)
   | ["mt", t] => do pure ("ok " ++ showStr (managerTarget (← str? t)))
   | "hist" :: lvl :: a :: b :: c :: d :: e :: f :: [m, t, hs, body, ch, outs] => do
     let cfg ← cfg? [a, b, c, d, e, f]
